@@ -2160,7 +2160,12 @@ class Engine:
                     argexprs.append(a)
             kwnames = [k.arg for k in e.keywords]
             if any(k is None for k in kwnames):
-                raise Unsupported(e, '**kwargs call')
+                # f(**kw): only to a ghost callee (contract-defined), which gets the mapping under the key '**'
+                ghost = (f.k == 'func' and isinstance(f.py, tuple) and (f.py[0] == 'spec' or self.has_policy(f))) \
+                    or (f.k == 'obj' and self.contract.hooks.get('call'))
+                if not ghost or kwnames.count(None) > 1:
+                    raise Unsupported(e, '**kwargs call')
+                kwnames = ['**' if k is None else k for k in kwnames]
             for st2, vs in self.eval_seq(argexprs + [k.value for k in e.keywords], st1):
                 if isinstance(vs, Raised):
                     out.append((st2, vs))
